@@ -1,7 +1,10 @@
 import Hive.Proofs.DaemonRun
 import Hive.Proofs.DaemonProgress
 import Hive.Proofs.DaemonReg
+import Hive.Proofs.DaemonX
+import Hive.Model.DaemonExec
 import Hive.Gen.C20_Skel
+import Hive.Gen.C20_Wrap
 /-!
 # C20 — the daemon stops background workers in descending shutdown order
 
@@ -181,6 +184,137 @@ theorem C20_reregistration_branch_dead (ts ts' : List Th) (s : St) (hr : Reach (
   unfold bwCrit
   simp [hst, hcl, hf, hrun, hfl]
 
+/-! ## The stopped context, and handlers that call back into the daemon
+
+`Hive/Model/DaemonX.lean` puts `stoppedCtx` (cancelled by `shutdown()` between the store of the stopped flag and the
+`IsRunning()` read), pollers of `ContextStopped()` and worker goroutines whose handlers call `BackgroundWorker`, `Start`,
+`IsStopped`, `Shutdown`, … *from inside the handler* on top of the same step function.  `StX.base` is the daemon state
+the theorems above are about, `projAll` the base threads a pool of this layer consists of. -/
+
+/-- **Refinement**: every run of the extended model — any pool of plain callers, context pollers and handlers that
+call back into the daemon — is, projected, a run of the base model. -/
+theorem C20_ext_refines (ts ts' : List ThX) (x : StX) (hr : Reach sysX (initX, ts) (x, ts')) :
+    Reach (sys true true) (init, projAll ts) (x.base, projAll ts') :=
+  (reachX_base hr).1
+
+/-- **The property at full strength for daemons whose handlers call back into the daemon** (and with a cancelled
+`ContextStopped()` counted as evidence of the stop in the no-add clause): a worker registered or started from inside a
+handler is subject to the same order / wait clauses; a registration from inside a handler that has seen its
+cancellation is never accepted. -/
+theorem C20_ext_statement :
+    ∀ (ts ts' : List ThX) (x : StX), Reach sysX (initX, ts) (x, ts') →
+      orderOk x.base.tr = true ∧ togetherOk x.base.tr = true ∧ waitOk x.base.tr = true ∧ runWaitOk x.base.tr = true ∧
+        noAddOk x.base.tr = true ∧ refusedOk x.base.tr = true :=
+  fun ts ts' x hr => C20_statement _ _ _ (C20_ext_refines ts ts' x hr)
+
+/-- **`ContextStopped()` is cancelled only after the stopped flag is set**: a cancelled stopped context implies
+`IsStopped()` (and that the `stopOnce` body is past its store of the flag under the lock). -/
+theorem C20_stopped_ctx_after_flag (ts ts' : List ThX) (x : StX) (hr : Reach sysX (initX, ts) (x, ts'))
+    (hc : x.ctxDone = true) : x.base.stopped = true ∧ x.base.sd ≠ .idle ∧ x.base.sd ≠ .taken := by
+  obtain ⟨hb, hx⟩ := reachX_base hr
+  exact ⟨(inv_reach hb).1.stopped_iff.mpr (hx.after hc), hx.after hc⟩
+
+/-- **… and before `stopWorkers` begins**: once the body of `stopOnce` is past its `IsRunning()` read the stopped
+context is cancelled; in particular no worker context is cancelled before the stopped context (and the flag). -/
+theorem C20_stopped_ctx_before_cancel (ts ts' : List ThX) (x : StX) (hr : Reach sysX (initX, ts) (x, ts')) :
+    (x.base.sd ≠ .idle → x.base.sd ≠ .taken → x.base.sd ≠ .stoppedSet → x.ctxDone = true) ∧
+      ∀ i, (x.base.objs i).cancelled = true → x.ctxDone = true ∧ x.base.stopped = true := by
+  obtain ⟨_, hx⟩ := reachX_base hr
+  refine ⟨hx.before, fun i hi => ?_⟩
+  have hc : x.ctxDone = true := by
+    cases h : x.ctxDone with
+    | true => rfl
+    | false => have := hx.nocanc h i; rw [hi] at this; cases this
+  exact ⟨hc, (C20_stopped_ctx_after_flag ts ts' x hr hc).1⟩
+
+/-- **… and before any `ShutdownAndWait` returns**: in a state in which the `stopOnce` body is done — the only states
+in which an `sdret` is emitted — and in every state whose trace contains an `sdret`, context and flag are set. -/
+theorem C20_stopped_ctx_before_return (ts ts' : List ThX) (x : StX) (hr : Reach sysX (initX, ts) (x, ts')) :
+    (x.base.sd = .done → x.ctxDone = true ∧ x.base.stopped = true) ∧
+      ((obsOf x.base.tr).sdRet = true → x.ctxDone = true ∧ x.base.stopped = true) := by
+  obtain ⟨hb, hx⟩ := reachX_base hr
+  have h1 : x.base.sd = .done → x.ctxDone = true ∧ x.base.stopped = true := by
+    intro hd
+    have hc := hx.before (by simp [hd]) (by simp [hd]) (by simp [hd])
+    exact ⟨hc, (C20_stopped_ctx_after_flag ts ts' x hr hc).1⟩
+  exact ⟨h1, fun hs => h1 ((inv_reach hb).2.2.sdRetDone hs)⟩
+
+/-- **Neither is ever reset**: every step of every thread keeps a cancelled stopped context cancelled and a set
+stopped flag set (so an observation made after another one cannot see less). -/
+theorem C20_stopped_monotone (ts ts' : List ThX) (x : StX) (hr : Reach sysX (initX, ts) (x, ts'))
+    (x' : StX) (us : List ThX) (hs : Step sysX (x, ts') (x', us)) :
+    (x.ctxDone = true → x'.ctxDone = true) ∧ (x.base.stopped = true → x'.base.stopped = true) := by
+  obtain ⟨hb, hx⟩ := reachX_base hr
+  have hst : x.ctxDone = true → x.base.stopped = true := fun hc => (C20_stopped_ctx_after_flag ts ts' x hr hc).1
+  generalize hc1 : (x, ts') = c1 at hs
+  generalize hc2 : (x', us) = c2 at hs
+  cases hs with
+  | mk s0 pre t post s1 t1 hmem =>
+    injection hc1 with e1 _
+    injection hc2 with e2 _
+    subst e1 e2
+    exact ⟨stepX_ctx_mono hmem, projStep_stopped_mono (stepX_inv_proj hx hst hmem).2⟩
+
+/-- **The observation predicate the driver evaluates on the real daemon holds in every reachable state** (`obsOk`,
+`Hive/Model/DaemonX.lean`): reading `ContextStopped().Err() != nil` and `IsStopped()` at any time gives "context
+implies flag"; once some worker context is cancelled, and once a `ShutdownAndWait` has returned, both are set. -/
+theorem C20_stopped_observations (ts ts' : List ThX) (x : StX) (hr : Reach sysX (initX, ts) (x, ts')) :
+    obsOk .any ⟨x.ctxDone, x.base.stopped⟩ = true ∧
+      ((∃ i, (x.base.objs i).cancelled = true) → obsOk .seen ⟨x.ctxDone, x.base.stopped⟩ = true) ∧
+      ((obsOf x.base.tr).sdRet = true → obsOk .sdret ⟨x.ctxDone, x.base.stopped⟩ = true) := by
+  refine ⟨?_, ?_, ?_⟩
+  · cases hc : x.ctxDone with
+    | false => simp [obsOk]
+    | true => simp [obsOk, (C20_stopped_ctx_after_flag ts ts' x hr hc).1]
+  · rintro ⟨i, hi⟩
+    obtain ⟨h1, h2⟩ := (C20_stopped_ctx_before_cancel ts ts' x hr).2 i hi
+    simp [obsOk, h1, h2]
+  · intro hs
+    obtain ⟨h1, h2⟩ := (C20_stopped_ctx_before_return ts ts' x hr).2 hs
+    simp [obsOk, h1, h2]
+
+/-- Pool of the call-back example: worker 1 (order 5) whose handler registers worker 2 (order 0) while the daemon
+runs and tries to register worker 3 and to `Start` after it has seen its cancellation; `Start`; `ShutdownAndWait`; the
+goroutine of the worker registered from inside the handler; a poller of `ContextStopped()`. -/
+def cbPool : List ThX :=
+  [.plain (.bw 1 1 5 .call), .plain (.starter .call),
+   .handler 0 [] [.bw 2 2 0 .call, .bw 3 3 9 .call, .starter .call], .plain (.sd 4 .call), .plain (.wk 1), .ctxw]
+
+def cbSchedule : List (Nat × Nat) :=
+  [(0, 0), (0, 0), (1, 0), (1, 0),            -- register 1, Start
+   (2, 1), (2, 0), (2, 0),                    -- the handler of 1 registers 2 (accepted, started at once), call returned
+   (3, 0), (3, 0), (3, 0), (3, 0),            -- shutdown: call, enter, flag under the lock, stopped context
+   (5, 0),                                    -- the poller sees the cancelled context
+   (3, 0), (3, 0), (3, 0), (3, 0),            -- IsRunning, snapshot, cancel 1 (order 5), wait for 5
+   (2, 1),                                    -- the handler sees its cancellation …
+   (2, 1), (2, 0),                            -- … and tries to register 3: refused (call returned)
+   (2, 1), (2, 0),                            -- … and to Start: nothing happens (call returned)
+   (2, 0), (2, 0), (2, 0), (2, 0),            -- the handler returns, Done, clean-up, flag
+   (3, 0), (3, 0), (3, 0), (4, 0), (4, 0), (4, 0), (4, 0),
+   (3, 0), (3, 0), (3, 0), (3, 0)]
+
+/-- Non-vacuity of the extension layer: a reachable history in which a handler registers a worker while the daemon
+runs (accepted, of a lower order, cancelled only after the registering worker returned) and is refused after it has
+seen its own cancellation; the stopped context is cancelled before any worker context. -/
+example :
+    let c := runSched sysX (initX, cbPool) cbSchedule
+    c.1.base.tr =
+      [.bwcall 1 1 5, .accept 1 1 0, .start 0 1 5, .bwcall 2 2 0, .accept 2 2 1, .start 1 2 0, .sdcall 4,
+       .stopseen, .cancel 0, .waitfor 5, .seen 0, .bwcall 3 3 9, .refuse 3 3 .stopped, .ret 0, .cancel 1,
+       .waitfor 0, .ret 1, .sdret 4] ∧ c.1.ctxDone = true := by
+  decide +kernel
+
+example : Reach sysX (initX, cbPool) (runSched sysX (initX, cbPool) cbSchedule) := runSched_reach _ _ _
+
+/-- After 10 steps of that schedule the stopped flag is stored and the stopped context not yet cancelled; one step
+later it is, and no worker context is cancelled yet. -/
+example :
+    let a := (runSched sysX (initX, cbPool) (cbSchedule.take 10)).1
+    let b := (runSched sysX (initX, cbPool) (cbSchedule.take 11)).1
+    a.base.stopped = true ∧ a.ctxDone = false ∧ b.ctxDone = true ∧ b.base.sd = .stoppedSet ∧
+      (b.base.objs 0).cancelled = false := by
+  decide +kernel
+
 /-! ## witnesses about the code before its repairs (concrete schedules; they were replayed on the real code
 of that time by `harness/c20`, see design/C20.md) -/
 
@@ -296,6 +430,52 @@ example :
     let s := (runSched (sys true true) (init, demoPool) (demoSchedule.take 18)).1
     0 < s.n ∧ (s.objs 0).cancelled = true := by
   decide +kernel
+
+/-! ## The driver executes successors of the model's step function
+
+`register` has one successor per sorted arrangement of the registry (factorially many); the compiled driver takes the
+one that inserts the new instance behind the entries of its order (`Hive/Model/DaemonExec.lean`). -/
+
+/-- **Whatever the driver executes in a sequential case is a step of the model**: `stepFirst` (used by `runThread`)
+returns a member of `step true true s t` — for a registration the arrangement obtained by stable insertion, which is one of
+the sorted permutations (`insDesc_mem_sortedPerms`, from the completeness of `perms`). -/
+theorem C20_driver_step_sound (s : St) (t : Th) (p : St × Th) (h : stepFirst s t = some p) :
+    p ∈ step true true s t :=
+  stepFirst_mem h
+
+/-! ## The package-level wrappers around the default daemon forward every argument
+
+`Hive/Gen/C20_Wrap.lean` is regenerated on every run (`harness/c20/wrapgen`, go/ast): every package-level function of
+`app/daemon/daemon.go` but `New`, with its parameters, results and its body in which the parameters are renamed to
+`p0, p1, …`.  The harness drives the wrappers as the same `api` as an instance (`mode default`, once per child process);
+the obligation below says what each of them *is*: one statement that calls the method of the same name on
+`defaultDaemon` with every parameter in order, the variadic one spread, and returns its result if it has one. -/
+
+def argNames : List String := ["p0", "p1", "p2", "p3", "p4", "p5"]
+
+def fwdArgs : List (String × Bool) → List String → List String
+  | [], _ => []
+  | _ :: _, [] => ["?"]
+  | (_, v) :: ps, n :: ns => (if v then n ++ "..." else n) :: fwdArgs ps ns
+
+/-- The body a forwarding wrapper has. -/
+def expectedBody (name : String) (ps : List (String × Bool)) (res : String) : String :=
+  (if res == "" then "" else "return ") ++ "defaultDaemon." ++ name ++ "(" ++ ", ".intercalate (fwdArgs ps argNames) ++ ")"
+
+/-- **Every package-level wrapper forwards to the method of its name with every argument** (a wrapper that drops the
+variadic order, passes it unspread, reorders arguments, calls another method or another daemon breaks this), the set of
+wrappers is the one the harness drives, with the signatures of the `OrderedDaemon` methods, and the default daemon is a
+`New()` one. -/
+theorem C20_wrappers_forward_all_arguments :
+    Hive.Gen.C20Wrap.wrappers.all (fun w => w.2.2.2 == expectedBody w.1 w.2.1 w.2.2.1) = true ∧
+      Hive.Gen.C20Wrap.wrappers.map (fun w => (w.1, w.2.1.map (·.1), w.2.2.1)) =
+        [("GetRunningBackgroundWorkers", [], "[]string"),
+         ("BackgroundWorker", ["string", "WorkerFunc", "...int"], "error"),
+         ("DebugLogger", ["log.Logger"], ""), ("Start", [], ""), ("Run", [], ""), ("Shutdown", [], ""),
+         ("ShutdownAndWait", [], ""), ("IsRunning", [], "bool"), ("IsStopped", [], "bool"),
+         ("ContextStopped", [], "context.Context")] ∧
+      Hive.Gen.C20Wrap.defaultDaemonDecl = "New()" := by
+  decide
 
 /-! ## Regenerated tie: the synchronisation skeletons the protocol model was written against
 
